@@ -408,8 +408,10 @@ def run_cbmc(u, gb, udir, tier, extra=(), trace_prop=None):
         cmd.append("--cvc5")
     elif be == "z3":
         cmd.append("--z3")
-    elif be in ("kissat", "cadical"):
-        cmd += ["--external-sat-solver", be]
+    elif be == "cadical":
+        cmd += ["--sat-solver", "cadical"]
+    elif be == "kissat":
+        cmd += ["--external-sat-solver", "kissat"]
     if trace_prop:
         cmd += ["--trace", "--property", trace_prop]
     rc, out, err, t, to = sh(cmd, timeout=u.timeout, mem_gb=u.mem_gb)
